@@ -1,17 +1,19 @@
 (* Driver.v - the single entry point the extracted correspondence driver calls. *)
-From RenetV Require Import Base Tree RDriver NDriver.
+From RenetV Require Import Base Tree RDriver NDriver TDriver.
 Open Scope N_scope.
 
-Record world := { w_renet : rworld; w_netcode : nworld }.
-Definition world0 : world := {| w_renet := rworld0; w_netcode := nworld0 |}.
+Record world := { w_renet : rworld; w_netcode : nworld; w_transport : tworld }.
+Definition world0 : world := {| w_renet := rworld0; w_netcode := nworld0; w_transport := tworld0 |}.
 
-(* opcodes below 100 address the renet world, the others the renetcode world *)
+(* opcodes below 100 address the renet world, 100..199 the renetcode world, 200.. the transport world *)
 Definition step (w : world) (op : tree) : world * tree :=
   match op with
   | TL (TN code :: _) =>
       if code <? 100
-      then let (r, o) := rstep (w_renet w) op in ({| w_renet := r; w_netcode := w_netcode w |}, o)
-      else let (n, o) := nstep (w_netcode w) op in ({| w_renet := w_renet w; w_netcode := n |}, o)
+      then let (r, o) := rstep (w_renet w) op in ({| w_renet := r; w_netcode := w_netcode w; w_transport := w_transport w |}, o)
+      else if code <? 200
+      then let (n, o) := nstep (w_netcode w) op in ({| w_renet := w_renet w; w_netcode := n; w_transport := w_transport w |}, o)
+      else let (t, o) := tstep (w_transport w) op in ({| w_renet := w_renet w; w_netcode := w_netcode w; w_transport := t |}, o)
   | _ => (w, T_BAD_OP)
   end.
 
